@@ -30,7 +30,7 @@ _ctxmod.logger = NoLog()
 def fault_libcst(kind: int, dry_run: bool, r1: bool, c1: bool, a1: bool, r2: bool, c2: bool, a2: bool, nf: int) -> bool:
     """LibcstTransformerPipeline.apply: a file that cannot be read, decoded, parsed or transformed is not
     written, is listed as failed with all its findings unfixed, and no exception escapes.
-    pre: 0 <= kind < 4 and 0 <= nf <= 2
+    pre: 0 <= kind < 5 and 0 <= nf <= 2
     post: _
     """
     fp, fc, o = skel.run_libcst(kind, dry_run, (r1, c1, a1), (r2, c2, a2), nf)
@@ -206,6 +206,84 @@ def isolation(k0: int, k1: int, k2: int, n: int, dry_run: bool) -> bool:
     return fin(ok)
 
 
+def _two_codemods(kinds, a_raises_on: int, dry_run: bool):
+    """Codemod A (rewrites `a = 1`; its transformer raises on file number `a_raises_on`, -1 = never) followed by
+    codemod B (appends a line), through the real apply_codemods."""
+    import codemodder.codemodder as cmod
+
+    cmod.logger = NoLog()
+    cmod.log_section = lambda *a, **k: None
+    _ctxmod.log_list = lambda *a, **k: None
+    files = [FakePath(CONTENT[k], rel="f%d.py" % i, vanished=(k == 3)) for i, k in enumerate(kinds)]
+
+    class TA:
+        @classmethod
+        def transform(cls, tree, results, file_context):
+            if file_context.file_path.rel == "f%d.py" % a_raises_on:
+                raise Boom()
+            file_context.codemod_changes.append(Change(lineNumber=2, description="d"))
+            return cst.parse_module(tree.code.replace("a = 1", "a = 2"))
+
+    class TB:
+        @classmethod
+        def transform(cls, tree, results, file_context):
+            file_context.codemod_changes.append(Change(lineNumber=1, description="d"))
+            return cst.parse_module(tree.code + "z = 0\n")
+
+    md = lambda n: Metadata(name=n, summary="s", review_guidance=ReviewGuidance.MERGE_WITHOUT_REVIEW, description="d")
+    A = _StubCodemod(metadata=md("a"), transformer=LibcstTransformerPipeline(TA))
+    B = _StubCodemod(metadata=md("b"), transformer=LibcstTransformerPipeline(TB))
+    ctx = _mk_context(dry_run, files)
+    bc.ThreadPoolExecutor = SerialExecutor
+    exc = None
+    try:
+        cmod.apply_codemods(ctx, [A, B])
+    except Exception as e:  # noqa
+        exc = type(e).__name__
+    return files, ctx, A, B, exc
+
+
+def isolation_two_codemods(k0: int, k1: int, a_raises_on: int) -> bool:
+    """Two codemods over 2 files in one real run (real apply_codemods): a file that codemod A cannot transform
+    is still processed by codemod B; a file nobody can read is reported failed by both; healthy files get both
+    edits; no exception escapes.
+    pre: -1 <= a_raises_on <= 1
+    post: _
+    """
+    kinds = [_pick_file_kind(k0), _pick_file_kind(k1)]
+    files, ctx, A, B, exc = _two_codemods(kinds, a_raises_on, False)
+    if exc is not None:
+        return False
+    ok = True
+    a_cs = {c.path for c in ctx.get_changesets(A.id)}
+    b_cs = {c.path for c in ctx.get_changesets(B.id)}
+    a_failed = sorted(str(p) for p in ctx.get_failures(A.id))
+    b_failed = sorted(str(p) for p in ctx.get_failures(B.id))
+    exp_a_failed, exp_b_failed = [], []
+    for i, k in enumerate(kinds):
+        rel = "f%d.py" % i
+        if k != 0:
+            exp_a_failed.append("/d/" + rel)
+            exp_b_failed.append("/d/" + rel)
+            ok = ok and files[i].writes == [] and rel not in a_cs and rel not in b_cs
+        elif i == a_raises_on:
+            exp_a_failed.append("/d/" + rel)
+            ok = ok and rel not in a_cs and rel in b_cs and files[i].content == CONTENT[0] + b"z = 0\n"
+        else:
+            ok = ok and rel in a_cs and rel in b_cs and files[i].content == CONTENT[0].replace(b"a = 1", b"a = 2") + b"z = 0\n"
+    return fin(ok and a_failed == sorted(exp_a_failed) and b_failed == sorted(exp_b_failed))
+
+
+def _pick_file_kind(k: int) -> int:
+    if k % 4 == 0:
+        return 0
+    if k % 4 == 1:
+        return 1
+    if k % 4 == 2:
+        return 2
+    return 3
+
+
 def planted_swallowed_failure(kind: int, nf: int) -> bool:
     """Self-test: a pipeline that fails without recording the failure must be refuted.
     pre: 1 <= kind < 4 and 0 <= nf <= 1
@@ -227,6 +305,8 @@ def warmup():
     _run_codemod([0, 1, 2], False)
     _run_codemod([3, 4], True)
     isolation(0, 4, 1, 3, False)
+    isolation_two_codemods(0, 1, 0)
+    isolation_two_codemods(0, 0, -1)
 
 
 SPEC = {
@@ -246,6 +326,7 @@ SPEC = {
         "XMLTransformerPipeline.apply",
         "FileContext.add_failure / add_unfixed_findings / get_all_findings",
         "BaseCodemod.apply / _apply / _process_file, FindAndFixCodemod.get_files_to_analyze",
+        "codemodder.codemodder.apply_codemods (two codemods in sequence)",
         "CodemodExecutionContext.process_results / add_changesets / add_failures / add_unfixed_findings / get_*",
     ],
     "bounds": {
@@ -264,6 +345,7 @@ SPEC = {
         Xh("fault_regex", 120, 300),
         Xh("fault_xml", 120, 300),
         Xh("isolation", 240, 900),
+        Xh("isolation_two_codemods", 240, 600),
         Xh("planted_swallowed_failure", 60, 120, twin=False, expect="refuted"),
     ],
 }
